@@ -820,6 +820,9 @@ func findingKey(tc *tcase, f *failure, j *judgement) string {
 // shrinking a failing case (so that one defect lands on few keys)
 // ---------------------------------------------------------------------------
 
+// longList: above this length a list is shrunk by cutting pieces off its ends.
+const longList = 16
+
 func candidates(tc *tcase) []*tcase {
 	var out []*tcase
 	add := func(f func(t *tcase)) {
@@ -827,7 +830,18 @@ func candidates(tc *tcase) []*tcase {
 		f(t)
 		out = append(out, t)
 	}
-	if tc.Kind == "filter" {
+	long := len(tc.Objects) > longList
+	if tc.Kind == "filter" && long {
+		// a long list is cut from either end, in halves, quarters, ... (one
+		// candidate per object, each a deep copy of the list, would be
+		// quadratic)
+		n := len(tc.Objects)
+		for s := n / 2; s >= 1; s /= 2 {
+			s := s
+			add(func(t *tcase) { t.Objects = t.Objects[s:] })
+			add(func(t *tcase) { t.Objects = t.Objects[:n-s] })
+		}
+	} else if tc.Kind == "filter" {
 		for i := range tc.Objects {
 			i := i
 			add(func(t *tcase) { t.Objects = append(t.Objects[:i], t.Objects[i+1:]...) })
@@ -902,6 +916,9 @@ func candidates(tc *tcase) []*tcase {
 		}
 	}
 	for i := range tc.Objects {
+		if long {
+			break // cards are simplified once the list is short
+		}
 		i := i
 		for _, k := range sortedKeys(tc.Objects[i].Card) {
 			k := k
